@@ -54,11 +54,16 @@ def h_sem_step_twin(v: int, b: int, op: int) -> bool:
     return True
 
 
+class Propagated(Exception):
+    """raised by a result callback and listed in callbacks_propagate: it leaves the result handler's turn"""
+
+
 def _pool(nd, mode, want):
     w = W.World()
     with untraced():
         sem = W.VSemaphore(2)
         p = w.make_pool(2, putlocks=True, semaphore=sem, lost_worker_timeout=LWT)
+    cb_fail = []
     if mode == 'send':
         p.threads = True
     jobs = []            # [handle, answered?]
@@ -73,13 +78,25 @@ def _pool(nd, mode, want):
         maps.append(p.map_async(W.val, ['m0', 'm1'], chunksize=1))
         w.feed()
     for _ in range(K - 2 if mode == 'fault' else K):
-        e = nd.draw(0, 6)
+        e = nd.draw(0, 3 if mode == 'callback' else 6)
         if e == 0:
             if nsub >= 3:
                 raise Prune()
             outstanding = sum(1 for j in jobs if not j[1])
+            cb = None
+            if mode == 'callback':
+                # user code run by the result handler when the job's result arrives: by then the job's slot is free again
+                # ("given back when the job's result arrives"), so a chained submission finds it
+                cbkind = nd.draw(0, 2)
+                if cbkind:
+                    def cb(value, cbkind=cbkind, me=len(jobs)):
+                        others = sum(1 for k, j in enumerate(jobs) if not j[1] and k != me and not j[0].ready())
+                        if sem._value != sem._initial_value - others:
+                            cb_fail.append('C10:S3:slot-still-held-while-the-job-s-callbacks-run')
+                        if cbkind == 2:
+                            raise Propagated()
             try:
-                h = p.apply_async(W.val, ('j%d' % nsub,))
+                h = p.apply_async(W.val, ('j%d' % nsub,), callback=cb, callbacks_propagate=(Propagated,))
                 blocked = False
             except W.WouldBlock:
                 blocked = True
@@ -110,7 +127,10 @@ def _pool(nd, mode, want):
         elif e == 3:
             if not p._outqueue.q:
                 raise Prune()
-            w.drain_results()          # the result handler catches up (order of ACK/READY is C01's subject)
+            try:
+                w.drain_results()          # the result handler catches up (order of ACK/READY is C01's subject)
+            except Propagated:
+                pass                       # (the caller of handle_result_event sees it; the job is done all the same)
         elif e == 4:
             if mode != 'fault':
                 raise Prune()
@@ -129,6 +149,8 @@ def _pool(nd, mode, want):
                 raise Prune()
             maps.append(p.map_async(W.val, ['m0', 'm1'], chunksize=1))
             w.feed()
+        if cb_fail:
+            return fail(cb_fail[0])
         for j in jobs:
             if j[0].ready():
                 j[1] = True
@@ -151,10 +173,17 @@ def _pool(nd, mode, want):
                     w.w_take(x)
                 else:
                     w.w_done(x)
-        w.drain_results()
+        for _ in range(4):
+            try:
+                w.drain_results()
+                break
+            except Propagated:
+                pass
         w.tick()
         w.adv(LWT + 1)
         w.tick()
+    if cb_fail:
+        return fail(cb_fail[0])
     if sem._value != sem._initial_value:
         return fail('C10:S3:slots-not-free-at-quiescence' + (':failed-send' if send_failed else ''))
     if sem._initial_value != p._processes:
@@ -162,13 +191,13 @@ def _pool(nd, mode, want):
     return True
 
 
-MODES = ('plain', 'fault', 'map', 'send')
+MODES = ('plain', 'fault', 'map', 'send', 'callback')
 
 
 def _run(code, want):
     # NPART = 4: the mode; every choice is a digit of one solver integer
     try:
-        return _pool(NDCode(code), MODES[PART % 4], want)
+        return _pool(NDCode(code), MODES[PART % len(MODES)], want)
     except Prune:
         return True
 
